@@ -10,6 +10,7 @@ import (
 	"strconv"
 	"sync"
 	"sync/atomic"
+	"time"
 
 	zed "github.com/brimdata/super"
 
@@ -350,7 +351,7 @@ func validate(c *core.Ctx, hs []*history, count bool) (int, *core.TLCResult, err
 		all = append(all, h.Events...)
 	}
 	res, err := c.RunTLC(core.TLCRun{Module: "TypeContextTrace", Cfg: "TypeContextTrace.trace.cfg",
-		Files: map[string][]byte{"trace.ndjson": core.NDJSON(all)}, Workers: 1, DFS: true})
+		Files: map[string][]byte{"trace.ndjson": core.NDJSON(all)}, Workers: 1, DFS: true, Timeout: 15 * time.Minute})
 	if res == nil {
 		return -1, nil, err
 	}
